@@ -142,6 +142,11 @@ def R(n):
         return 'new ' + ' '.join(R(c) for c in n.get('inner', []))
     if k == 'CXXDefaultInitExpr':
         return 'default-init'
+    if k == 'CXXDependentScopeMemberExpr':
+        b = R(n['inner'][0]) if n.get('inner') else 'this'
+        return n.get('member', '?') if b == 'this' else '%s.%s' % (b, n.get('member', '?'))
+    if k == 'CXXThrowExpr':
+        return 'throw ' + (R(n['inner'][0]) if n.get('inner') else '')
     raise TranslateError('render: unsupported expression node %s' % k)
 
 
@@ -688,6 +693,215 @@ def gen_namefile(tree):
             'def sfwRemoves (cnt : Int) (triedOpen : Bool) : Bool := %s\n' % t)
 
 
+AV_TU = """#define NDEBUG 1
+#include "mp/nl-reader.h"
+#include "mp/problem.h"
+namespace c08tu { void use(mp::internal::NLProblemBuilder<mp::Problem>& b, const mp::NLHeader& h) { b.AddVariables(h); } }
+"""
+
+
+def gen_addvariables(tree):
+    """include/mp/nl-reader.h, NLProblemBuilder<Problem>::AddVariables + DoAddVars: the READER's type-by-position rule.
+    Symbolic execution of the straight-line body into: Option (list of `builder_.AddVars(count, type)` calls), none = throw."""
+    import subprocess
+    tu = os.path.join(tree.work, 'c08_addvars_inst.cc')
+    open(tu, 'w').write(AV_TU)
+    cmd = ['clang++-14', '-std=gnu++17', '-fsyntax-only', '-w', '-DNDEBUG', '-I', os.path.join(tree.repo, 'include'),
+           '-Xclang', '-ast-dump=json', '-Xclang', '-ast-dump-filter=NLProblemBuilder', tu]
+    p = subprocess.run(cmd, capture_output=True, text=True)
+    if p.returncode != 0:
+        raise TranslateError('clang failed on the AddVariables TU: ' + p.stderr[:1500])
+    found = {}
+
+    def walk(n):
+        if not isinstance(n, dict):
+            return
+        k = n.get('kind')
+        if k == 'ClassTemplateDecl':
+            for c in n.get('inner', []):
+                if isinstance(c, dict) and c.get('kind') == 'CXXRecordDecl':
+                    continue              # the dependent pattern
+                walk(c)
+            return
+        if k == 'CXXMethodDecl' and n.get('name') in ('AddVariables', 'DoAddVars'):
+            b = [c for c in n.get('inner', []) if isinstance(c, dict) and c.get('kind') == 'CompoundStmt']
+            if b:
+                found.setdefault(n['name'], []).append(b[0])
+        for c in n.get('inner', []):
+            walk(c)
+    for d in parse_concat_json(p.stdout):
+        prune(d)
+        walk(d)
+    for nm in ('AddVariables', 'DoAddVars'):
+        if len(found.get(nm, [])) != 1:
+            raise TranslateError('%d instantiated bodies of NLProblemBuilder::%s' % (len(found.get(nm, [])), nm))
+    if S(found['DoAddVars'][0]) != ['builder_.AddVars(n, t)', '(k += n)']:
+        raise TranslateError('DoAddVars is not {builder_.AddVars(n, t); k += n;}: %s' % S(found['DoAddVars'][0]))
+    fields = {'h.num_vars': 'nvars', 'h.num_nl_vars_in_cons': 'nlvc', 'h.num_nl_vars_in_objs': 'nlvo', 'h.num_nl_vars_in_both': 'nlvb',
+              'h.num_linear_binary_vars': 'nbv', 'h.num_linear_integer_vars': 'niv', 'h.num_nl_integer_vars_in_both': 'nlvbi',
+              'h.num_nl_integer_vars_in_cons': 'nlvci', 'h.num_nl_integer_vars_in_objs': 'nlvoi'}
+
+    class SemAV(Sem):
+        def E(self, n, want=None):
+            n1 = strip(n)
+            if n1.get('kind') == 'CallExpr' and callee_name(n1['inner'][0]) in ('max', 'min') and len(n1['inner']) == 3:
+                a, _ = self.E(n1['inner'][1], 'Int'); b, _ = self.E(n1['inner'][2], 'Int')
+                f = callee_name(n1['inner'][0])
+                t = '(if %s < %s then %s else %s)' % ((a, b, b, a) if f == 'max' else (b, a, b, a))
+                return self.coerce(t, 'Int', want, n)
+            return super().E(n, want)
+
+    def mk(locals_):
+        lv = {k: (v, 'Int') for k, v in fields.items()}
+        return SemAV(lv, dict(locals_))
+
+    def is_throw(st):
+        st = strip(st) if st.get('kind') in TRANSPARENT else st
+        if st.get('kind') == 'CompoundStmt' and len(st.get('inner', [])) == 1:
+            return is_throw(st['inner'][0])
+        return st.get('kind') == 'CXXThrowExpr' or (st.get('kind') in TRANSPARENT and strip(st).get('kind') == 'CXXThrowExpr')
+
+    def ex(stmts, loc, k, calls, lists):
+        """loc: local name -> lean term; k: lean term of the counter; calls: list of lean pair terms"""
+        if not stmts:
+            return '(some [%s])' % ', '.join(calls)
+        st, rest = stmts[0], stmts[1:]
+        kind = st.get('kind')
+        if kind in TRANSPARENT:
+            st = strip(st); kind = st.get('kind')
+        if kind == 'CompoundStmt':
+            return ex(list(st.get('inner', [])) + rest, loc, k, calls, lists)
+        if kind == 'NullStmt':
+            return ex(rest, loc, k, calls, lists)
+        if kind == 'DeclStmt':
+            loc = dict(loc); lists = dict(lists)
+            for d in st['inner']:
+                if d.get('kind') in ('TypedefDecl', 'TypeAliasDecl'):
+                    continue
+                if d.get('kind') != 'VarDecl':
+                    raise TranslateError('AddVariables: declaration of %s' % d.get('kind'))
+                init = [c for c in d.get('inner', []) if isinstance(c, dict) and 'kind' in c][-1]
+                i0 = strip(init)
+                if i0.get('kind') == 'InitListExpr':
+                    lists[d['name']] = [mk(loc).E(c, 'Int')[0] for c in i0['inner']]
+                elif d['name'] == 'k':
+                    k = mk(loc).E(init, 'Int')[0]
+                else:
+                    loc[d['name']] = (mk(loc).E(init, 'Int')[0], 'Int')
+            return ex(rest, loc, k, calls, lists)
+        if kind == 'CXXForRangeStmt':
+            inner = st['inner']
+            rng = [c for c in inner if c.get('kind') == 'DeclStmt'][0]
+            loopvar = [c for c in inner if c.get('kind') == 'DeclStmt'][-1]['inner'][0]['name']
+            rname = R([c for c in rng['inner'][0].get('inner', []) if isinstance(c, dict) and 'kind' in c][-1])
+            body = inner[-1]
+            if body.get('kind') == 'CompoundStmt' and len(body['inner']) == 1:
+                body = body['inner'][0]
+            if rname not in lists or body.get('kind') != 'IfStmt' or len(body['inner']) != 2 or not is_throw(body['inner'][1]):
+                raise TranslateError('AddVariables: range-for is not `for (x : list) if (cond) throw`')
+            l2 = dict(loc); l2[loopvar] = ('sz', 'Int')
+            cond = mk(l2).E(body['inner'][0], 'Bool')[0]
+            return '(if ([%s].any (fun sz => %s)) then none else %s)' % (', '.join(lists[rname]), cond, ex(rest, loc, k, calls, lists))
+        if kind == 'IfStmt':
+            inner = st['inner']
+            cond = mk(loc).E(inner[0], 'Bool')[0]
+            if is_throw(inner[1]) and len(inner) == 2:
+                return '(if %s then none else %s)' % (cond, ex(rest, loc, k, calls, lists))
+            if len(inner) != 2:
+                raise TranslateError('AddVariables: if with else')
+            # the then-branch may declare locals: they are not visible after it, the counter and the calls are
+            return '(if %s then %s else %s)' % (cond, ex([inner[1]] + [{'kind': '__pop__', 'loc': loc, 'lists': lists}] + rest, loc, k, calls, lists),
+                                                 ex(rest, loc, k, calls, lists))
+        if kind == '__pop__':
+            return ex(rest, st['loc'], k, calls, st['lists'])
+        if kind == 'DoStmt':                      # MP_ASSERT_ALWAYS: do { if (!(c)) throw ...; } while (0)
+            body = st['inner'][0]
+            if strip(st['inner'][1]).get('kind') != 'IntegerLiteral' or strip(st['inner'][1]).get('value') != '0':
+                raise TranslateError('AddVariables: do-while that is not while(0)')
+            return ex([body] + rest, loc, k, calls, lists)
+        if kind == 'CXXMemberCallExpr' and R(st).startswith('DoAddVars('):
+            a = st['inner'][1:]
+            if len(a) != 3 or R(a[2]) != 'k':
+                raise TranslateError('AddVariables: DoAddVars call %s' % R(st))
+            cnt = mk({**loc, 'k': (k, 'Int')}).E(a[0], 'Int')[0]
+            ty = R(a[1])
+            if ty not in ('CONTINUOUS', 'INTEGER'):
+                raise TranslateError('AddVariables: variable type %s' % ty)
+            return ex(rest, loc, '(%s + %s)' % (k, cnt), calls + ['(%s, %s)' % (cnt, 'true' if ty == 'INTEGER' else 'false')], lists)
+        raise TranslateError('AddVariables: unsupported statement %s: %s' % (kind, S(st) if kind and kind.endswith('Stmt') else R(st)))
+
+    # conditions may mention k (the MP_ASSERT_ALWAYS checks): make it visible to Sem through the locals
+    def ex_k(stmts, loc, k, calls, lists):
+        return ex(stmts, loc, k, calls, lists)
+    # Sem needs `k` as a local whenever a condition reads it: patch mk to add it
+    body = found['AddVariables'][0]
+    orig_mk = mk
+
+    term_holder = {}
+
+    def run():
+        nonlocal mk
+        state = {'k': '(0 : Int)'}
+
+        def mk2(loc):
+            return orig_mk(loc)
+        return ex([body], {}, '(0 : Int)', [], {})
+    # simplest way to let conditions see k: thread it as a local named k
+    def ex(stmts, loc, k, calls, lists, _ex=ex):
+        loc = dict(loc); loc['k'] = (k, 'Int')
+        return _ex(stmts, loc, k, calls, lists)
+    term = ex([body], {}, '(0 : Int)', [], {})
+    return ('/-- `NLProblemBuilder<Problem>::AddVariables` (include/mp/nl-reader.h): the sequence of `builder_.AddVars(count, integer?)`\n'
+            'calls made for a header, `none` = an exception is thrown -/\n'
+            'def addVariables (nvars nlvc nlvo nlvb nbv niv nlvbi nlvci nlvoi : Int) : Option (List (Int × Bool)) :=\n  %s\n' % term)
+
+
+def gen_readnumargs(tree):
+    """include/mp/nl-reader.h, NLReader::ReadNumArgs (the arity test applied to the `sum` node) and MIN_ITER_ARGS.
+    The member is only available as the class-template pattern; its test `num_args < min_args` is not dependent."""
+    import subprocess
+    tu = os.path.join(tree.work, 'c08_readnumargs_inst.cc')
+    open(tu, 'w').write(AV_TU)
+    def dump(flt):
+        cmd = ['clang++-14', '-std=gnu++17', '-fsyntax-only', '-w', '-DNDEBUG', '-I', os.path.join(tree.repo, 'include'),
+               '-Xclang', '-ast-dump=json', '-Xclang', '-ast-dump-filter=' + flt, tu]
+        p = subprocess.run(cmd, capture_output=True, text=True)
+        if p.returncode != 0:
+            raise TranslateError('clang failed: ' + p.stderr[:1500])
+        docs = parse_concat_json(p.stdout)
+        for d in docs:
+            prune(d)
+        return docs
+    fns = [d for d in dump('ReadNumArgs') if d.get('kind') == 'CXXMethodDecl' and d.get('name') == 'ReadNumArgs']
+    if len(fns) != 1:
+        raise TranslateError('%d declarations of ReadNumArgs' % len(fns))
+    fn = fns[0]
+    params = [c for c in fn['inner'] if c.get('kind') == 'ParmVarDecl']
+    body = [c for c in fn['inner'] if c.get('kind') == 'CompoundStmt'][0]
+    if len(params) != 1 or params[0].get('name') != 'min_args':
+        raise TranslateError('ReadNumArgs: parameters changed')
+    dflt = [c for c in params[0].get('inner', []) if isinstance(c, dict) and 'kind' in c]
+    if not dflt or R(dflt[-1]) != 'MIN_ITER_ARGS':
+        raise TranslateError('ReadNumArgs: default of min_args is not MIN_ITER_ARGS')
+    rend = S(body)
+    if len(rend) != 3 or rend[0] != 'decl num_args := reader_.ReadUInt()' or rend[2] != 'return num_args':
+        raise TranslateError('ReadNumArgs: body changed: %s' % rend)
+    ifs = [c for c in body['inner'] if c.get('kind') == 'IfStmt'][0]
+    if len(ifs['inner']) != 2 or not R(ifs['inner'][1]).startswith('reader_.ReportError('):
+        raise TranslateError('ReadNumArgs: the guarded statement is not reader_.ReportError(...)')
+    cond = Sem({'num_args': ('numArgs', 'Int'), 'min_args': ('minArgs', 'Int')}).E(ifs['inner'][0], 'Bool')[0]
+    consts = [d for d in dump('MIN_ITER_ARGS') if d.get('kind') == 'EnumConstantDecl' and d.get('name') == 'MIN_ITER_ARGS']
+    if len(consts) != 1:
+        raise TranslateError('MIN_ITER_ARGS not found')
+    lit = strip([c for c in consts[0].get('inner', []) if isinstance(c, dict) and 'kind' in c][-1])
+    if lit.get('kind') != 'IntegerLiteral':
+        raise TranslateError('MIN_ITER_ARGS is not an integer literal')
+    return ('/-- `NLReader::ReadNumArgs`: the condition under which "too few arguments" is reported; `MIN_ITER_ARGS` is the default\n'
+            'minimum, used for the `sum` node -/\n'
+            'def readNumArgsFails (numArgs minArgs : Int) : Bool := %s\n'
+            'def minIterArgs : Int := %s\n' % (cond, lit['value']))
+
+
 SKELS = [  # (lean name, source file, dump filter, function name, signature substring or None)
     ('FeedObjGradient', 'nl-writer2/src/nl-solver.cc', 'NLFeeder_Easy', 'FeedObjGradient', None),
     ('FeedObjExpression', 'nl-writer2/src/nl-solver.cc', 'NLFeeder_Easy', 'FeedObjExpression', None),
@@ -734,7 +948,7 @@ def main(repo, out, work):
          'namespace MpVerif.Gen.C08Easy',
          'open MpVerif.C08',
          '',
-         gen_permute_step(tree), gen_objvalue(tree), gen_solhandler(tree), gen_walks(tree), gen_revmap(tree), gen_namefile(tree)]
+         gen_permute_step(tree), gen_objvalue(tree), gen_solhandler(tree), gen_walks(tree), gen_revmap(tree), gen_namefile(tree), gen_addvariables(tree), gen_readnumargs(tree)]
     names = []
     for lean, src, flt, fn, sig in SKELS:
         _, _, rend = tree.body(src, flt, fn, None, sig)
@@ -747,7 +961,7 @@ def main(repo, out, work):
     old = open(out).read() if os.path.exists(out) else None
     if old != text:
         open(out, 'w').write(text)
-    print('generated 37 semantic defs, %d skeletons -> %s%s' % (len(names), out, '' if old != text else ' (unchanged)'))
+    print('generated 40 semantic defs, %d skeletons -> %s%s' % (len(names), out, '' if old != text else ' (unchanged)'))
 
 
 if __name__ == '__main__':
